@@ -192,6 +192,9 @@ func init() {
 				fs[i] = c64(id)
 			}
 		}
+		for _, o := range e.keyPairs {
+			e.assume(smt.Ne(p, o)) // independently generated key pairs are distinct
+		}
 		e.keyPairs = append(e.keyPairs, p)
 		return &Struct{Fields: fs}
 	}
